@@ -20,6 +20,17 @@ pub fn all_atoms(f: &F) -> Vec<R> {
     v
 }
 
+/// thorough tier: atoms over the extended name alphabet
+pub fn all_atoms_extended(f: &F) -> Vec<R> {
+    let mut v = all_atoms(f);
+    for &t in NAMED_ATOMS.iter() {
+        for n in f.extra_names {
+            v.push(R::atom(t, n));
+        }
+    }
+    v
+}
+
 /// Reduced pool: one atom per kind, a dashed word, the placeholder (8 atoms).
 pub fn pool(f: &F) -> Vec<R> {
     let mut v = pool_base();
@@ -191,7 +202,9 @@ pub fn u_term(f: &F, tier: Tier) -> Vec<R> {
             out.extend(towers(8));
         }
         Tier::Thorough => {
+            out = all_atoms_extended(f);
             apply_all(&all_atoms(f), 3, &mut out); // T1(3) over all atoms
+            apply_all(&all_atoms_extended(f), 2, &mut out); // T1(2) over the extended name alphabet
             let mut items = reps.clone();
             items.extend([R::word("b1"), R::atom(Tag::QVar, "x-y"), R::interval(0)]);
             apply_all(&items, 3, &mut out); // T2(3)
@@ -323,6 +336,24 @@ pub fn u_sent_cover(f: &F) -> Vec<V> {
                 k += 1;
             }
         }
+    }
+    out
+}
+
+/// N_F^collide (Han only): names that are legal identifiers (no atom prefix, no copula inside) but
+/// spell an item keyword of the Han vocabulary: a budget (`预…算`) at the start, a stamp or truth
+/// form at the end. Swept separately from the regular alphabets (DESIGN 3.1, KF-2).
+pub fn han_collide_values() -> Vec<V> {
+    let mut out = vec![];
+    for n in ["预算", "预1算", "预12算甲", "甲过去", "甲现在", "甲将来", "甲发生在1", "甲真值", "甲真1值"] {
+        let t = R::word(n);
+        out.push(V::term(t.clone()));
+        out.push(V { term: t.clone(), punct: Some(P::Judgement), stamp: St::Eternal, truth: vec![], budget: None });
+        out.push(V { term: t.clone(), punct: Some(P::Goal), stamp: St::Present, truth: vec![1.0, 0.9], budget: None });
+        out.push(V { term: t.clone(), punct: Some(P::Judgement), stamp: St::Eternal, truth: vec![], budget: Some(vec![0.5]) });
+        // not in leading / trailing position: inside a statement
+        out.push(V::term(R::pair(Tag::Inh, t.clone(), R::word("a"))));
+        out.push(V::term(R::node(Tag::Product, vec![R::word("a"), t])));
     }
     out
 }
